@@ -316,6 +316,9 @@ def run_check(prop, tier, seed, t0, no_mc=False):
                     drift.append(c['id'])
                     break
     crashes = [(i, r) for i, r in enumerate(recs) if r.get('crash')]
+    oversize = [r.get('id') for r in recs if r.get('oversize')]
+    if oversize:
+        log('[exec] %d record(s) too large to be read back (lines dropped, judged by the totality predicate only): %s' % (len(oversize), oversize[:5]))
     # sampled replay of random cases through the full model (binding impl -> spec; drift, not verdict)
     n_model = plan.get('model_sample', dict(quick=150, thorough=3000))[tier]
     model_checked = 0
@@ -426,6 +429,7 @@ def run_check(prop, tier, seed, t0, no_mc=False):
         'model_level_violations': mc_info['model_violations'],
         'predicate_failures': len(bad_idx),
         'known_findings_hit': known_hits,
+        'oversize_records_not_judged': 0 if prop == 'C01' else len(oversize),
         'canonical_inputs_run': n_canon,
         'checker_cmd': 'bin/check %s --tier %s' % (prop, tier),
         'trace_validation_tlc_states': tstates,
